@@ -35,6 +35,7 @@ type hbEv struct {
 	detail string
 	held   map[string]int
 	depth  int // inlining depth of the frame that produced the event
+	fun    string // spawn / callelem only, opt-in (hbInterp.elemFields): "elem:<field>" = the function started is an element of that field; "static" | "dynamic"
 }
 
 type hbFrame struct {
@@ -60,6 +61,54 @@ type hbInterp struct {
 	timerFns  []*ast.FuncLit // closures handed to time.AfterFunc
 	guardVar  string         // local that holds the result of the timer's Stop()
 	guarded   bool           // on this path the result of Stop() has been tested and was true
+	// opt-in (gen_approval): fields holding a collection of functions; a local that ranges over such a field (or over a
+	// copy of it) is aliased "elem:<field>", and a `go` / call of it is marked in the event's fun
+	elemFields map[string]bool
+}
+
+// elemSource: the expression denotes a tracked collection field, a local alias of it, or a copy made of it
+// (append(x, f...), slices.Clone(f), a slice expression f[:])
+func (in *hbInterp) elemSource(fr *hbFrame, e ast.Expr) string {
+	if in.elemFields == nil {
+		return ""
+	}
+	switch x := hbUnparen(e).(type) {
+	case *ast.SelectorExpr:
+		if id, ok := x.X.(*ast.Ident); ok && id.Name == fr.recv && fr.recv != "" && in.elemFields[x.Sel.Name] {
+			return "field:" + x.Sel.Name
+		}
+	case *ast.Ident:
+		if v := fr.alias[x.Name]; strings.HasPrefix(v, "field:") && in.elemFields[v[6:]] {
+			return v
+		}
+	case *ast.SliceExpr:
+		return in.elemSource(fr, x.X)
+	case *ast.CallExpr:
+		for _, a := range x.Args {
+			if v := in.elemSource(fr, a); v != "" {
+				return v
+			}
+		}
+	}
+	return ""
+}
+
+// elemFun: the function expression of a call is an element of a tracked collection ("" = no)
+func (in *hbInterp) elemFun(fr *hbFrame, f ast.Expr) string {
+	if in.elemFields == nil {
+		return ""
+	}
+	switch x := hbUnparen(f).(type) {
+	case *ast.Ident:
+		if v := fr.alias[x.Name]; strings.HasPrefix(v, "elem:") {
+			return v
+		}
+	case *ast.IndexExpr:
+		if v := in.elemSource(fr, x.X); v != "" {
+			return "elem:" + v[6:]
+		}
+	}
+	return ""
 }
 
 func (in *hbInterp) emit(kind, detail string) {
@@ -260,6 +309,20 @@ func (in *hbInterp) walkStmt(fr *hbFrame, st ast.Stmt, defers *[]string) {
 					}
 				}
 				in.walkExpr(fr, r)
+				if ix, isIx := hbUnparen(r).(*ast.IndexExpr); isIx && lch == "" {
+					// cb := r.callbacks[i]
+					if src := in.elemSource(fr, ix.X); src != "" {
+						if id, ok := l.(*ast.Ident); ok && id.Name != "_" {
+							in.emit("read", src)
+							fr.alias[id.Name] = "elem:" + src[6:]
+						}
+					}
+				} else if src := in.elemSource(fr, r); src != "" && lch == "" {
+					if id, ok := l.(*ast.Ident); ok && id.Name != "_" {
+						in.emit("read", src)
+						fr.alias[id.Name] = src
+					}
+				}
 			}
 		}
 	case *ast.IfStmt:
@@ -324,6 +387,14 @@ func (in *hbInterp) walkStmt(fr *hbFrame, st ast.Stmt, defers *[]string) {
 		in.walkStmt(fr, x.Post, defers)
 	case *ast.RangeStmt:
 		in.walkExpr(fr, x.X)
+		if src := in.elemSource(fr, x.X); src != "" {
+			if id, ok := x.Value.(*ast.Ident); ok && id.Name != "_" {
+				fr.alias[id.Name] = "elem:" + src[6:]
+			}
+			if _, isCall := hbUnparen(x.X).(*ast.CallExpr); isCall {
+				in.emit("read", src)
+			}
+		}
 		in.walkBlock(fr, x.Body.List, defers)
 	case *ast.SwitchStmt:
 		in.walkStmt(fr, x.Init, defers)
@@ -446,6 +517,25 @@ func (in *hbInterp) walkStmt(fr *hbFrame, st ast.Stmt, defers *[]string) {
 			in.spawnArgs = args
 		}
 		in.emit("spawn", passed)
+		if in.elemFields != nil {
+			fun := in.elemFun(fr, x.Call.Fun)
+			if fl, ok := x.Call.Fun.(*ast.FuncLit); ok && fun == "" {
+				// go func() { cb(msg) }(): the closure calls the element
+				ast.Inspect(fl.Body, func(n ast.Node) bool {
+					if c, ok := n.(*ast.CallExpr); ok && fun == "" {
+						fun = in.elemFun(fr, c.Fun)
+					}
+					return true
+				})
+			}
+			if fun == "" {
+				fun = "dynamic"
+				if _, isLit := x.Call.Fun.(*ast.FuncLit); isLit || in.callee(fr, x.Call) != nil {
+					fun = "static"
+				}
+			}
+			in.trace[len(in.trace)-1].fun = fun
+		}
 	default:
 	}
 }
@@ -517,6 +607,14 @@ func (in *hbInterp) walkExpr(fr *hbFrame, e ast.Expr) {
 
 func (in *hbInterp) call(fr *hbFrame, c *ast.CallExpr) {
 	name := exprString(c.Fun)
+	if fun := in.elemFun(fr, c.Fun); fun != "" {
+		for _, a := range c.Args {
+			in.walkExpr(fr, a)
+		}
+		in.emit("callelem", "")
+		in.trace[len(in.trace)-1].fun = fun
+		return
+	}
 	if sel, ok := c.Fun.(*ast.SelectorExpr); ok && len(c.Args) == 0 {
 		switch sel.Sel.Name {
 		case "Lock", "RLock":
